@@ -73,6 +73,8 @@ type channel struct {
 	refs  atomic.Int32 // 2 by default (1 for user, 1 for connection)
 	freed atomic.Bool  // ensures public free is called once
 
+	connFreed atomic.Bool // ensures the connection reference is released once
+
 	state atomic.Pointer[channelState]
 }
 
@@ -297,6 +299,12 @@ func (ch *channel) receive(msg pmpx.Message) status.Status {
 
 // free is called by the connection to free the channel.
 func (ch *channel) free() {
+	// The connection can free the channel twice: closeChannels does not remove it from the map,
+	// and the send loop frees it again when it writes a queued close message.
+	if !ch.connFreed.CompareAndSwap(false, true) {
+		return
+	}
+
 	s := ch.state.Load()
 	if s == nil {
 		panic("free of freed channel")
